@@ -11,7 +11,7 @@ from collections.abc import Mapping
 from .ExcludedGcode import EXCLUDE_EXCEPT_FIRST, EXCLUDE_EXCEPT_LAST, EXCLUDE_MERGE
 from .Position import Position
 from .RetractionState import RetractionState
-from .GcodeParser import GcodeParser
+from .GcodeParser import GcodeParser, formatNumber
 
 IGNORE_GCODE_CMD = (None,)
 
@@ -820,16 +820,17 @@ class ExcludeRegionState(object):  # pylint: disable=too-many-instance-attribute
 
         returnCommands.append(
             # Set logical extruder position
-            "G92 E{e}".format(e=self.position.E_AXIS.nativeToLogical())
+            "G92 E{e}".format(e=formatNumber(self.position.E_AXIS.nativeToLogical()))
         )
 
         # Compare the native (mm) Z positions: the logical values may be expressed in different
         # units if G20/G21 was encountered while excluding.
         newZ = self.position.Z_AXIS.current
         oldZ = self.lastPosition.Z_AXIS.current
+        feedRate = formatNumber(self.feedRate / self.feedRateUnitMultiplier)
         moveZcmd = "G0 F{f} Z{z}".format(
-            f=self.feedRate / self.feedRateUnitMultiplier,
-            z=self.position.Z_AXIS.nativeToLogical()
+            f=feedRate,
+            z=formatNumber(self.position.Z_AXIS.nativeToLogical())
         )
 
         if (newZ > oldZ):
@@ -841,9 +842,9 @@ class ExcludeRegionState(object):  # pylint: disable=too-many-instance-attribute
             # Move X/Y axes to new position
             # Use G0 ("fast" linear move) as this is a non-extruding move
             "G0 F{f} X{x} Y{y}".format(
-                f=self.feedRate / self.feedRateUnitMultiplier,
-                x=self.position.X_AXIS.nativeToLogical(),
-                y=self.position.Y_AXIS.nativeToLogical()
+                f=feedRate,
+                x=formatNumber(self.position.X_AXIS.nativeToLogical()),
+                y=formatNumber(self.position.Y_AXIS.nativeToLogical())
             )
         )
 
